@@ -334,3 +334,87 @@ pub fn mutate_for_diag(lines: &mut Vec<String>, r: &mut Rng) -> &'static str {
         _ => { lines.insert(0, format!("REMARK 999 {}", "Y".repeat(60))); "remark-long-ok" }
     }
 }
+
+/// Documents that walk `validate_seqres` through all of its branches: one to three chains with SEQRES records
+/// (serial numbers and totals right or wrong, names in any case, with blanks inside, with characters the structs
+/// refuse), a database reference with or without sequence differences in front of its start, chains numbered from the
+/// position the first name stands for or out of step, residues missing, out of order, repeated, with two residue
+/// names under one number, hetero groups between them, SEQRES for a chain that has no atoms, a second model.
+pub fn gen_seqres_doc(r: &mut Rng) -> Vec<String> {
+    let names = ["ALA", "GLY", "SER", "LYS", "CYS", "MSE", "ala", " MG", "ZN ", "A\tB", "  A"];
+    let plain = ["ALA", "GLY", "SER", "LYS", "CYS"];
+    let nch = 1 + r.below(3);
+    let mut head: Vec<String> = Vec::new();
+    let mut body: Vec<String> = Vec::new();
+    for _ in 0..r.below(2) { head.push("REMARK   2 RESOLUTION.    1.74 ANGSTROMS.".to_string()); }
+    let mut plan: Vec<(char, i64, Vec<String>)> = Vec::new();
+    for ci in 0..nch {
+        let ch = if r.chance(1, 12) { *r.pick(&['a', ' ', '1']) } else { (b'A' + ci as u8) as char };
+        let big = r.chance(1, 5); let n = 1 + r.below(if big { 30 } else { 6 });
+        let odd = r.chance(1, 4);
+        let seq: Vec<String> = (0..n).map(|_| if odd { r.pick(&names).to_string() } else { r.pick(&plain).to_string() }).collect();
+        // database reference: start, end (right, or off by a few), sequence differences in front of the start
+        let mut start = 0i64;
+        if r.chance(1, 2) {
+            start = r.range(-3, 30);
+            let n_front = if r.chance(1, 3) { 1 + r.below(2) as i64 } else { 0 };
+            let end = start + n as i64 - 1 - n_front + if r.chance(1, 5) { r.range(-2, 2) } else { 0 };
+            head.push(format!("DBREF  1ABC {} {:>4}  {:>4}  UNP    P12345   TEST_HUMAN   {:>5}  {:>5} ", ch, start, end, 1, n));
+            for k in 0..n_front {
+                // an expression tag in front of the database sequence: no database residue
+                head.push(format!("SEQADV 1ABC {} {} {:>4}  UNP  P12345              EXPRESSION TAG", r.pick(&plain), ch, start - 1 - k));
+            }
+            if r.chance(1, 4) { head.push(format!("SEQADV 1ABC {} {} {:>4}  UNP  P12345    ALA    12 ENGINEERED MUTATION   ", r.pick(&plain), ch, start + 1)); }
+            start -= n_front;
+        }
+        plan.push((ch, start, seq));
+    }
+    for (ch, _, seq) in &plan {
+        let wrong_total = r.chance(1, 8);
+        for (i, chunk) in seq.chunks(13).enumerate() {
+            let ser = if r.chance(1, 15) { i + 2 } else { i + 1 };
+            let total = if wrong_total || (i > 0 && r.chance(1, 15)) { seq.len() + 1 + r.below(2) } else { seq.len() };
+            let mut l = format!("SEQRES {:>3} {} {:>4}  {}", ser, ch, total, chunk.join(" "));
+            if r.chance(1, 20) { let k = 12 + r.below(l.len().saturating_sub(12).max(1)); l = l.chars().take(k).collect(); }
+            head.push(l);
+        }
+    }
+    if r.chance(1, 8) { head.push("SEQRES   1 Q    2  ALA GLY".to_string()); } // a chain without atoms
+    if r.chance(1, 4) { let at = r.below(head.len() + 1); head.insert(at, "REMARK 300 BETWEEN".to_string()); }
+    let nmodels = if r.chance(1, 5) { 2 } else { 1 };
+    let mut serial = 0usize;
+    for mi in 0..nmodels {
+        if nmodels > 1 { body.push(model_line(mi + 1)); }
+        for (ch, start, seq) in &plan {
+            let shift = if r.chance(1, 6) { r.range(-2, 3) } else { 0 };
+            let mut order: Vec<usize> = (0..seq.len()).collect();
+            if r.chance(1, 8) && order.len() > 2 { let i = r.below(order.len() - 1); order.swap(i, i + 1); }
+            if r.chance(1, 10) && !order.is_empty() { let i = r.below(order.len()); let v = order[i]; order.push(v); }
+            for i in order {
+                if r.chance(1, 10) { continue; }
+                let num = start + i as i64 + shift;
+                let nm = if r.chance(1, 8) { r.pick(&plain).to_string() } else { seq[i].trim().replace('\t', "X") };
+                let nm = if nm.is_empty() { "ALA".to_string() } else { nm };
+                let two_names = r.chance(1, 12);
+                let het = r.chance(1, 12);
+                for (k, an) in ["N", "CA"].iter().enumerate().take(1 + r.below(2)) {
+                    serial += 1;
+                    let (alt, resname) = if two_names { (['A', 'B'][k % 2], [nm.clone(), "GLY".to_string()][k % 2].clone()) } else { (' ', nm.clone()) };
+                    let a = AtomRec { het, serial, name: an.to_string(), alt, resname, chain: if *ch == ' ' { 'A' } else { *ch }, resseq: num, icode: ' ', x: serial as i64 * 1000, y: 0, z: 0, occ: 1_000_000, b: 0, seg: String::new(), element: an[..1].to_string(), charge: 0, aniso: None };
+                    body.push(atom_line(&a, r, false));
+                }
+            }
+            for _ in 0..r.below(3) {
+                serial += 1;
+                let a = AtomRec { het: true, serial, name: "O".into(), alt: ' ', resname: "HOH".into(), chain: if *ch == ' ' { 'A' } else { *ch }, resseq: start + seq.len() as i64 + r.range(1, 500), icode: ' ', x: serial as i64 * 1000, y: 0, z: 0, occ: 1_000_000, b: 0, seg: String::new(), element: "O".into(), charge: 0, aniso: None };
+                body.push(atom_line(&a, r, false));
+            }
+            body.push("TER".into());
+        }
+        if nmodels > 1 { body.push("ENDMDL".into()); }
+    }
+    body.push("END".into());
+    head.extend(body);
+    head
+}
+
